@@ -94,7 +94,7 @@ def main():
                 meta["check"] = {"cmd": f"TZSIM_BUDGET_SCALE={os.environ.get('SENS_SCALE', '0.25')} ./check {prop} quick", "exit": rc, "detected": rc == 1 and "VIOLATION property=" in o,
                                  "oracles": [l[:400] for l in o.splitlines() if l.startswith("violated oracle")][:4], "harness_errors": [l[:300] for l in o.splitlines() if l.startswith("HARNESS-ERROR")][:3], "wall_s": round(time.time() - t0, 1)}
         finally:
-            sh(["git", "-C", REPO, "checkout", "--", "."])
+            (sh(["git", "-C", REPO, "checkout", "--", "."]), sh(["git", "-C", REPO, "clean", "-fdq", "src", "tests"]))
         dest = os.path.join(OUTV, "seeded", f"{prop}-{os.path.basename(out.rstrip('/')).replace('-out', '')}-{n}")
         os.makedirs(dest, exist_ok=True)
         shutil.copy(d, os.path.join(dest, "patch.diff"))
